@@ -1,6 +1,8 @@
 import PySMT.Proofs.C09HRTable
 import PySMT.Proofs.C09HR6
 import PySMT.Proofs.C09HREx
+import PySMT.Proofs.C09HR7
+import PySMT.Proofs.C09HRSpell
 /-!
 # C09, third sentence — the human-readable format: the property theorems
 
@@ -25,8 +27,16 @@ parser must have returned the identical formula object.
 * `hr_roundtrip_partial` — on the larger fragment `InHRFragN` (n-ary `And`/`Or`/`Plus`/`Times` of three or more
   arguments allowed) the parse succeeds and returns `regroup t` — `t` with those applications nested to the left, what the
   Pratt loop builds from `(a & b & c)` — which has the same type, the same meaning under **every** interpretation (no
-  well-typedness or `WF` hypothesis is needed), and whose own tokens are those of `t` up to parentheses
-  (`sameUpToGrouping`).
+  well-typedness or `WF` hypothesis is needed), and differs from `t` at most in the grouping of n-ary operators:
+  `sameUpToGrouping t' t`, i.e. `flatNary t' = flatNary t` — flattening every nest of applications of one of
+  `And`/`Or`/`Plus`/`Times` into one application gives the same *term* (so `((p & q) | p)` and `(p & (q | p))` are NOT
+  related; an earlier version compared token lists with every parenthesis erased, which was far too coarse).
+* `hr_frag_of_printable_partial` — **the fragment is not an unenforced count**: on the operator slice `HR.sliceOp` (Boolean
+  connectives, linear integer/real arithmetic and comparisons, equality, if-then-else, array select/store, symbols,
+  function applications, quantifiers, Boolean/integer/real constants) every formula that is `Printable` (C07: well-typed,
+  canonical payloads and arities), in the manager's normal form (`mgrNormal`, C08) and whose names are names the HR format
+  can carry (`hrSpellable`) **is** in `InHRFragN`. `_partial`: bit-vector and string operators, `ToReal`, `/`, constant
+  arrays are outside the slice (for them membership is the decidable condition below, evaluated per formula by K).
 * `hr_regroup_type_meaning` — the type/meaning part for every term, in or out of the fragment.
 * `hr_frag_subset` — `InHRFrag ⊆ InHRFragN`, and `regroup` is the identity on `InHRFrag`.
 * `hrOps_consistent` — the regenerated table is consistent (`Proofs/C09HRTable.lean`, by `decide`): every operator
@@ -55,11 +65,14 @@ is what `FormulaManager` builds (well-typed, canonical payload, manager-normal: 
 no `Div` by a non-zero constant, …). Non-vacuity: `Proofs/C09HREx.lean` (one member per operator family).
 
 Excluded, covered by K/S only:
-* **F30** (known finding): string constants containing `"` (`fragNode` refuses them at the token level: the printer doubles
-  the quote, the scanner does not undo it), identifiers containing `'` or `\`, names that are SMT-LIB simple symbols but not
-  HR identifiers (`a.b`, `k!1`), names spelled like a keyword rule (`forall`) — all properties of the regular-expression
-  scanner, invisible at the token level; names of the identifier map (`xor`, `ToReal`, `Int`, `True`, …) *are* refused
-  (`reservedName`);
+* **F30** (known finding; the generator of K/S produces such names and strings, S reports them under F30, K checks that
+  the Lean side puts none of them in the fragment): string constants containing `"` (the printer doubles the quote, the
+  scanner does not undo it), and every name outside `HR.hrName`: entries of the identifier map (`xor`, `ToReal`, `Int`,
+  `True`, …), names printed bare (`_simple_symbol_prog` of `pysmt/utils.py`, regenerated) that are not identifiers of the
+  scanner (`a.b`, `k!1`, `.def_0`) or spell a keyword rule (`forall`, `exists`), names printed quoted that hold `'` or `\`
+  (the scanner's `'(.*?)'` knows no escape). `fragNode` asks `hrName` of every symbol, function name and bound variable.
+  The scanner itself is still not modelled: `hrName` states what it does to a *name*; that `lex (render (hrTokens t)) =
+  hrTokens t` is K only;
 * array values with assigned entries (read back as the equal chain of `Store`s over the constant array: a different
   term with the same tokens), infix applications of one argument, quantifiers without variables, algebraic constants,
   arrays over `String`/user sorts (the HR grammar has no spelling for these sorts);
@@ -76,11 +89,28 @@ theorem hr_roundtrip_exact (t : Term) (h : InHRFrag t) : hrParse (hrTokens t) = 
 
 /-- **the round trip, up to the grouping of n-ary operators** (`_partial`: the fragment `InHRFragN`; token level — the
 scanner, F30 and array values with assignments are covered by K/S only): the parse succeeds, and the parsed term has the
-type of `t`, the meaning of `t` under every interpretation, and the tokens of `t` up to parentheses. -/
+type of `t`, the meaning of `t` under every interpretation, and is `t` up to the grouping of n-ary operators
+(`flatNary t' = flatNary t`). -/
 theorem hr_roundtrip_partial (t : Term) (h : InHRFragN t) :
     ∃ t', hrParse (hrTokens t) = .ok t' ∧ t'.typeOf = t.typeOf ∧ (∀ I : Interp, eval I t' = eval I t) ∧
-      sameUpToGrouping (hrTokens t') (hrTokens t) :=
-  ⟨regroup t, RT.hrParse_hrTokens_regroup t h, RT.typeOf_regroup t, RT.eval_regroup t, RT.strip_regroup t h⟩
+      sameUpToGrouping t' t :=
+  ⟨regroup t, RT.hrParse_hrTokens_regroup t h, RT.typeOf_regroup t, RT.eval_regroup t, RT.flatNary_regroup t⟩
+
+/-- `regroup` changes nothing but the grouping of n-ary operators (no hypothesis) -/
+theorem hr_regroup_grouping (t : Term) : sameUpToGrouping (regroup t) t := RT.flatNary_regroup t
+
+/-- **the fragment contains the printable, manager-normal, spellable formulas of the operator slice** (`_partial`: the
+slice `HR.sliceOp` — no bit-vector or string operators, `ToReal`, `/`, constant arrays) -/
+theorem hr_frag_of_printable_partial (env : Std.SEnv) (scope : List Sym) (t : Term)
+    (hP : Printer.Printable env scope t = true) (hN : Parser.Agree.mgrNormal t = true) (hS : hrSpellable t = true) :
+    InHRFragN t :=
+  Spell.spellable_frag env t scope hP hN hS
+
+/-- … hence the round trip for them -/
+theorem hr_roundtrip_printable_partial (env : Std.SEnv) (t : Term)
+    (hP : Printer.Printable env [] t = true) (hN : Parser.Agree.mgrNormal t = true) (hS : hrSpellable t = true) :
+    hrParse (hrTokens t) = .ok (regroup t) :=
+  RT.hrParse_hrTokens_regroup t (Spell.spellable_frag env t [] hP hN hS)
 
 /-- what the parser returns is `regroup t`: n-ary `And`/`Or`/`Plus`/`Times` nested to the left, nothing else changed -/
 theorem hr_roundtrip_regroup_partial (t : Term) (h : InHRFragN t) : hrParse (hrTokens t) = .ok (regroup t) :=
@@ -117,6 +147,17 @@ example : InHRFrag Ex.t6 := Ex.frag_t6
 /-- `(x & y & (! y))`, read back as `((x & y) & (! y))` -/
 example : InHRFragN Ex.t7 ∧ regroup Ex.t7 = Ex.t7' ∧ Ex.t7' ≠ Ex.t7 :=
   ⟨Ex.frag_t7, Ex.regroup_t7, by decide⟩
+/-- `(exists i . (f(i) = i))` -/
+example : InHRFrag Ex.t8 := Ex.frag_t8
+/-- `((- b)::b)[0:3]` (prefix minus, concatenation, extraction) -/
+example : InHRFrag Ex.t9 := Ex.frag_t9
+/-- `((b & b) xor (b << 1_4))` -/
+example : InHRFrag Ex.t10 := Ex.frag_t10
+/-- `Array{Int, Int}(0)` -/
+example : InHRFrag Ex.t11 := Ex.frag_t11
+/-- the hypotheses of `hr_frag_of_printable_partial` hold of `('x y' <= -5)` -/
+example : ∃ env, Printer.Printable env [] C07.t1 = true ∧ Parser.Agree.mgrNormal C07.t1 = true ∧ hrSpellable C07.t1 = true :=
+  ⟨_, Spell.ex_printable, Spell.ex_normal, Spell.ex_spellable⟩
 example : hrParse (hrTokens Ex.t7) = .ok Ex.t7' := by
   rw [← Ex.regroup_t7]; exact hr_roundtrip_regroup_partial _ Ex.frag_t7
 
